@@ -19,7 +19,7 @@ The space is cut into sub-universes, each enumerated completely:
   U2B   forests  = 5 nodes, 4 labels       x  (thorough) all one- and two-level queries over 5 levels
   U3    forests  = 5 nodes, names only     x  all three-level queries over {literal, None}
   UD    chains 60 deep (40 through the nginx parser), with and without a leaf beside every nested node
-                                           x  all one-, two- and three-level name queries
+                                           x  all one- to four-level name queries
   UEP   forests <= 3 nodes                 x  every entry point (select, find, find_all, [], chained select,
                                               chained [], where) on Entry, from_dict, a real ConfigParser (nginx)
                                               document and a Result over several documents; two-step histories
@@ -1057,9 +1057,12 @@ def run_bulk_unit(unit, tier, res):
                             vio = check_case(case)                   # fresh build, fresh compile
                             if bad:
                                 detailed += 1
-                        if bad and not vio:
+                        qvio = [v for v in vio if v[0] == CLAUSE_Q]
+                        if bad and not qvio:
+                            if structure(ctx) != ctx.snapshot:
+                                break        # an earlier call of this block changed the tree: judged just below
                             raise RuntimeError("fast path and checker disagree (fast: %r != %r) on %s" % (got, exp, canon_json(case)))
-                        if vio and not bad:
+                        if qvio and not bad:
                             raise RuntimeError("checker reports what the fast path missed on %s" % canon_json(case))
                         for (cl, e, o, ft) in vio:
                             res.violation(cl, case, e, o, ft)
@@ -1144,7 +1147,7 @@ def ep_cases(tier, build):
                 out.append({"ep": "find", "levels": [l1, l2], "deep": True, "roots": roots})
     if build in ("entry", "multi", "nginx"):
         for pre in pres:
-            for l in two + [["tuple", nq_lit("b"), ["lit", "x"], ["bool", P("lt", 2)]]]:
+            for l in two + [["tuple", nq_lit("b"), ["lit", "x"], ["bool", P("lt", 2)]], ["tuple", NONE, ["fn", "str_x"]]]:
                 for deep, roots in OPTS:
                     out.append({"ep": "chain", "pre": pre, "levels": [l], "deep": deep, "roots": roots})
                 out.append({"ep": "chain_getitem", "pre": pre, "levels": [l], "deep": False, "roots": False})
@@ -1250,7 +1253,7 @@ def deep_forests(depth):
 def run_deep_unit(unit, tier, res):
     build = unit["build"]
     lqs = lq_names("quick")
-    queries = [list(t) for n in (1, 2, 3) for t in itertools.product(lqs, repeat=n)]
+    queries = [list(t) for n in (1, 2, 3, 4) for t in itertools.product(lqs, repeat=n)]      # one level beyond the bulk bound
     n = 0
     for f in deep_forests(DEEP_CHAIN[build]):
         ctx = build_ctx(f, build)
